@@ -88,8 +88,11 @@ struct Reporter
         if (samples_per_kind[kind]++ < maxn)
             printf("SAMPLE {\"kind\":\"%s\",%s}\n", kind.c_str(), json.c_str());
     }
-    void viol(const std::string &sig, const std::string &cas, const std::string &detail)
+    void viol(const std::string &sig_, const std::string &cas, const std::string &detail)
     {
+        std::string sig = sig_; // a signature is one token: no blanks
+        for (char &c : sig) if (c == ' ' || c == '\t' || c == '\n') c = '_';
+        if (sig.size() > 160) sig.resize(160);
         std::lock_guard<std::mutex> g(mu);
         nviol++;
         stats["violations_seen"]++;
